@@ -167,7 +167,7 @@ pub(in crate::sql) fn distinct(
                     // DISTINCT
 
                     res.push(SqlTransform::Distinct);
-                } else if ctx.dialect.supports_distinct_on() && range_int.end == Some(1) {
+                } else if ctx.dialect.supports_distinct_on() && take_only_first {
                     // DISTINCT ON (only if we want to select only one row per group)
 
                     let sort = if sort.is_empty() {
